@@ -128,8 +128,11 @@ fn scenario(ctx: &Ctx, idx: u64) -> Report {
         let yield_p = *[0.0, 0.0, 0.2, 1.0].choose(&mut rng).unwrap();
         net.set_send_yield(yield_p);
         // sends that return late: the handler stays suspended in a send while deadlines pass
-        let linger = *[(0.0, 0), (0.0, 0), (0.3, 50 * MS), (1.0, 5 * MS), (1.0, 400 * MS)].choose(&mut rng).unwrap();
+        let linger = *[(0.0, 0), (0.0, 0), (0.3, 50 * MS), (1.0, 5 * MS), (1.0, 400 * MS), (0.03, 30 * SEC)].choose(&mut rng).unwrap();
         net.set_send_linger(linger.0, linger.1);
+        if linger.1 > 6 * SEC {
+            report.count("nodes_whose_sends_may_return_more_than_one_refresh_interval_late");
+        }
 
         let mut cfg = NodeCfg::new(addr);
         cfg.id = Some(id);
@@ -199,7 +202,7 @@ fn scenario(ctx: &Ctx, idx: u64) -> Report {
                     _ => {}
                 }
             }
-            for w in [MIN, 10 * MIN, now] {
+            for w in [12 * SEC, MIN, 10 * MIN, now] {
                 if let Some((count, allowed, start)) = window_violation(&rounds, &completions, w) {
                     report.violation(
                         "C18",
